@@ -45,13 +45,13 @@ Proof.
   pose proof (dialect_isq d Hdia) as Hd. rewrite render_line_pre.
   destruct v as [z | z | tok | s]; cbn [render_val expect_val good_val] in *.
   - rewrite (parse_line_bare d Hd ws0 key ws1 ws2 H0 H1 H2 Hk (dec_of_Z z) ws3 comment
-               (forallb_impl _ _ _ dec_char_tok (proj2 (dec_of_Z_chars z))) H3).
+               (tok_char_bare_text _ (forallb_impl _ _ _ dec_char_tok (proj2 (dec_of_Z_chars z)))) H3).
     now rewrite parse_bare_dec.
   - rewrite (parse_line_bare d Hd ws0 key ws1 ws2 H0 H1 H2 Hk (hex_of_Z z) ws3 comment
-               (forallb_impl _ _ _ hex_tok_char_tok (proj2 (hex_of_Z_chars z))) H3).
+               (tok_char_bare_text _ (forallb_impl _ _ _ hex_tok_char_tok (proj2 (hex_of_Z_chars z)))) H3).
     now rewrite parse_bare_hex.
   - unfold good_float_tok in Hv. apply andb_true_iff in Hv as [Hv Hf]. apply andb_true_iff in Hv as [Hc Hm].
-    rewrite (parse_line_bare d Hd ws0 key ws1 ws2 H0 H1 H2 Hk tok ws3 comment Hc H3).
+    rewrite (parse_line_bare d Hd ws0 key ws1 ws2 H0 H1 H2 Hk tok ws3 comment (tok_char_bare_text tok Hc) H3).
     destruct (py_float tok) as [f|e] eqn:Ef; [|discriminate].
     now rewrite (parse_bare_float tok f (tok_char_no_space tok Hc) Hm Ef).
   - exact (parse_line_quoted d Hd ws0 key ws1 ws2 H0 H1 H2 Hk s ws3 comment Hv H3).
@@ -86,10 +86,11 @@ Lemma malformed : forall d, dialect d ->
      good_str d s = true -> all_space ws = true -> py_isspace c = false -> c <> 35%N ->
      parse_line (ws0 ++ key ++ ws1 ++ [61%N] ++ ws2 ++ (d ++ s ++ d) ++ ws ++ c :: rest) d = Err EPhoenix)
   /\
-  (* a bare token (possibly empty) that none of int(s), int(s,16), float(s) accepts *)
+  (* a bare text (possibly empty, possibly with inner blanks: a number followed by junk) that none of
+     int(s), int(s,16), float(s) accepts *)
   (forall ws0 key ws1 ws2 tok ws3 comment,
      all_space ws0 = true -> all_space ws1 = true -> all_space ws2 = true -> all_space ws3 = true ->
-     good_key d key = true -> forallb tok_char tok = true ->
+     good_key d key = true -> bare_text tok = true ->
      is_ok (py_int tok) = false -> is_ok (py_int16 tok) = false -> is_ok (py_float tok) = false ->
      parse_line (render_line ws0 key ws1 ws2 tok ws3 comment) d = Err EPhoenix).
 Proof.
